@@ -61,6 +61,19 @@ var c03Alphabet = func() []buildOp {
 		buildOp{Name: "WriteHeader", Do: func(m *stun.Message) { m.WriteHeader() }},
 		buildOp{Name: "Encode", Do: func(m *stun.Message) { m.Encode() }, IsEncode: true, Appends: true},
 		buildOp{Name: "WriteLength", Do: func(m *stun.Message) { m.WriteLength() }},
+		buildOp{Name: "ForEach(0x7FFF, callback fails on 2nd visit)", Do: func(m *stun.Message) {
+			n := 0
+			_ = m.ForEach(0x7FFF, func(*stun.Message) error {
+				n++
+				if n == 2 {
+					return errC02Stop
+				}
+				return nil
+			})
+		}},
+		buildOp{Name: "ForEach(0x8022, callback fails on 1st visit)", Do: func(m *stun.Message) {
+			_ = m.ForEach(0x8022, func(*stun.Message) error { return errC02Stop })
+		}},
 	)
 	for _, n := range []int{0, 1, 3, 4} {
 		v := patBytes(n, 5)
